@@ -35,6 +35,15 @@ type tlcProg struct {
 	Ret    []int   `json:"ret"`
 }
 
+// call data of the matrix programs (37 bytes: not a multiple of the word size)
+var matrixData = func() []byte {
+	d := make([]byte, 37)
+	for i := range d {
+		d[i] = byte(0xa0 + i)
+	}
+	return d
+}()
+
 var (
 	tr     *vutil.Trace
 	rec    *eu.Recorder
@@ -533,7 +542,107 @@ func matrixPrograms(full bool) [][]byte {
 			}
 		}
 	}
-	return append(progs, a.Bytes())
+	progs = append(progs, a.Bytes())
+	return append(progs, flowAndCopyPrograms()...)
+}
+
+// flowAndCopyPrograms: (A) JUMPI with every class of destination operand, not taken and taken;
+// (B) the copy instructions into memory that already holds non-zero bytes, with source ranges
+// that straddle, touch or lie beyond the end of the code / call data (up to 2^256-1).
+func flowAndCopyPrograms() [][]byte {
+	var progs [][]byte
+	max := wrap(new(big.Int).Sub(two256, one))
+	// (A) byte 1 of the program is a 0x5b inside push data, byte 0 is not a JUMPDEST
+	dests := []*big.Int{big.NewInt(1), big.NewInt(0), big.NewInt(2), big.NewInt(0xffff), pow2(63), pow2(64),
+		wrap(new(big.Int).Add(pow2(64), big.NewInt(3))), pow2(255), max}
+	a := eu.NewAsm()
+	a.Op(eu.PUSH1, eu.JUMPDEST, eu.POP)
+	for _, d := range dests { // condition zero: the destination operand is irrelevant
+		a.Op(eu.PUSH0).Push(d.Bytes()).Op(eu.JUMPI)
+	}
+	a.Op(eu.PUSH0).PushLabel("ok").Op(eu.JUMPI)    // not taken, valid label
+	a.PushInt(1).PushLabel("ok").Op(eu.JUMPI)      // taken, valid label
+	a.Op(eu.INVALID).Label("ok").Op(eu.PC, eu.POP) // skipped / landed
+	progs = append(progs, a.Bytes())
+	for _, d := range dests[:6] { // condition non-zero: every one of them is an invalid jump
+		b := eu.NewAsm().Op(eu.PUSH1, eu.JUMPDEST, eu.POP)
+		b.Push(pow2(200).Bytes()).Push(d.Bytes()).Op(eu.JUMPI, eu.STOP)
+		progs = append(progs, b.Bytes())
+	}
+	// (B)
+	type src struct {
+		rel  int // >= 0: end of the source minus rel; < 0: absolute value abs
+		abs  *big.Int
+		plus int // end of the source plus plus
+	}
+	srcs := []src{{rel: 5}, {rel: 1}, {rel: 0}, {rel: -1, abs: nil, plus: 7}, {rel: -1, abs: big.NewInt(4000)},
+		{rel: -1, abs: new(big.Int).Sub(pow2(64), one)}, {rel: -1, abs: pow2(64)}, {rel: -1, abs: pow2(255)}, {rel: -1, abs: max}}
+	lens := []int{1, 32, 40}
+	dsts := []int{0, 3, 50}
+	for _, op := range []byte{eu.CODECOPY, eu.CALLDATACOPY} {
+		n := 0
+		var c *eu.Asm
+		flush := func() {
+			if c != nil {
+				c.Op(eu.STOP).Mark("end")
+				progs = append(progs, c.Bytes())
+				c = nil
+			}
+		}
+		for si, sc := range srcs {
+			for li, l := range lens {
+				if c == nil {
+					c = eu.NewAsm()
+				}
+				d := dsts[(si+li)%3]
+				// dirty the window: 64 bytes of 0xff from d
+				c.Push(max.Bytes()).PushInt(uint64(d)).Op(eu.MSTORE).Push(max.Bytes()).PushInt(uint64(d + 32)).Op(eu.MSTORE)
+				c.PushInt(uint64(l))
+				endOf := func() {
+					if op == eu.CODECOPY {
+						c.PushLabel("end")
+					} else {
+						c.Op(eu.CALLDATASIZE)
+					}
+				}
+				switch {
+				case sc.rel >= 0:
+					c.PushInt(uint64(sc.rel))
+					endOf()
+					c.Op(eu.SUB)
+				case sc.abs == nil:
+					c.PushInt(uint64(sc.plus))
+					endOf()
+					c.Op(eu.ADD)
+				default:
+					c.Push(sc.abs.Bytes())
+				}
+				c.PushInt(uint64(d)).Op(op)
+				// read the window back so that stale bytes also show on the stack
+				c.PushInt(uint64(d)).Op(eu.MLOAD, eu.POP)
+				n++
+				if n%6 == 0 {
+					flush()
+				}
+			}
+		}
+		flush()
+	}
+	// CALLDATALOAD around the end of the call data, MCOPY over dirty, overlapping windows
+	m := eu.NewAsm()
+	for _, rel := range []int{33, 32, 31, 1, 0} {
+		m.PushInt(uint64(rel)).Op(eu.CALLDATASIZE, eu.SUB, eu.CALLDATALOAD, eu.POP)
+	}
+	for _, x := range []*big.Int{pow2(64), pow2(255), max} {
+		m.Push(x.Bytes()).Op(eu.CALLDATALOAD, eu.POP)
+	}
+	m.Push(max.Bytes()).Op(eu.PUSH0, eu.MSTORE).Push(pow2(255).Bytes()).PushInt(32).Op(eu.MSTORE)
+	for _, t := range [][3]int{{1, 0, 40}, {0, 1, 40}, {31, 33, 2}, {64, 0, 64}, {10, 10, 5}, {0, 60, 0}} {
+		m.PushInt(uint64(t[2])).PushInt(uint64(t[1])).PushInt(uint64(t[0])).Op(eu.MCOPY)
+	}
+	m.Op(eu.MSIZE, eu.POP)
+	progs = append(progs, m.Bytes())
+	return progs
 }
 
 // ------------------------------------------------------------------ vectors
@@ -687,7 +796,7 @@ func main() {
 	if *matrix != "" {
 		for i, code := range matrixPrograms(*matrix == "full") {
 			if i%*shards == *shard {
-				runProgram("matrix", code, nil)
+				runProgram("matrix", code, matrixData)
 				stats["matrix_programs"]++
 			}
 		}
